@@ -336,7 +336,9 @@ def flow_spec(draw, max_dim=3, factories=None):
         s["block_dim"] = draw(st.integers(1, 3))
     elif f == "planar_flow":
         s["negative_slope"] = draw(st.sampled_from([0.1, 0.5, 1.0, None]))
-        s["pscale"] = draw(st.sampled_from([0.0, 0.3, 1.0, 2.0, 2.0]))  # init is 0.01*N(0,1): constraints only bite far from it
+        # init is 0.01*N(0,1): constraints only bite far from it.  Conditional planar flows (MLP conditioner) stay at
+        # <= 0.3 so that w.u does not reach the region where 1 + w.u_hat underflows to exactly 0 (inherent, DESIGN 5)
+        s["pscale"] = draw(st.sampled_from([0.0, 0.3, 1.0, 2.0, 2.0] if s["cond_dim"] is None else [0.0, 0.1, 0.3]))
     elif f == "triangular_spline_flow":
         s["knots"] = draw(st.integers(1, 6))
         s["tanh_max_val"] = draw(st.sampled_from([1.0, 3.0]))
